@@ -5,22 +5,6 @@ From Coq Require Import Floats.
 From Grule Require Import Base Values CmpGen.
 Open Scope Z_scope.
 
-Definition bytes_to_string (l : list Z) : string :=
-  fold_right (fun b acc => String (ascii_of_nat (Z.to_nat b)) acc) EmptyString l.
-
-(* IEEE-754 binary64 bit pattern -> primitive float (exact) *)
-Definition float_of_bits (bits : Z) : float :=
-  let sign := Z.testbit bits 63 in
-  let e := Z.land (Z.shiftr bits 52) 2047 in
-  let m := Z.land bits (2 ^ 52 - 1) in
-  let mag :=
-    if e =? 2047 then (if m =? 0 then PrimFloat.infinity else PrimFloat.nan)
-    else if e =? 0 then
-      (if m =? 0 then PrimFloat.zero
-       else Z.ldexp (PrimFloat.of_uint63 (Uint63.of_Z m)) (-1074))
-    else Z.ldexp (PrimFloat.of_uint63 (Uint63.of_Z (m + 2 ^ 52))) (e - 1075) in
-  if sign then PrimFloat.opp mag else mag.
-
 (* ---- C19 ---- *)
 Definition c19case : Type := (Z * val * val * list (res val))%type.
 
